@@ -392,3 +392,20 @@ mod stats_summary_tests {
         assert_eq!(5, summary.get(&StatsType::KeysAdded).unwrap());
     }
 }
+
+#[cfg(cached_verif)]
+impl ConcurrentStatsCounter {
+    pub(crate) fn verif_all(&self) -> [u64; TOTAL_STATS] {
+        let mut all = [0u64; TOTAL_STATS];
+        for stats_type in StatsType::VALUES.iter().copied() { all[stats_type as usize] = self.get(&stats_type); }
+        all
+    }
+}
+
+#[cfg(cached_verif)]
+pub fn verif_hit_ratio(hits: u64, misses: u64) -> f64 {
+    let counter = ConcurrentStatsCounter::new();
+    counter.add(StatsType::CacheHits, hits);
+    counter.add(StatsType::CacheMisses, misses);
+    counter.hit_ratio()
+}
